@@ -536,7 +536,7 @@ impl Prop for C07 {
         "C07"
     }
     fn cases(&self) -> (u64, u64) {
-        (100_000, 2_000_000)
+        (400_000, 2_000_000)
     }
     fn rule(&self) -> &'static str {
         "choice bytes -> a choice over 2-4 alternatives with disjoint names (required flag, \
